@@ -489,7 +489,37 @@ def gen_c08(tier, seed):
                 ops.append(c)
         ops += ['rb:200007', 'rb:20000f', 'ds']
         g.add(ops, 'exhaustive')
-    return g.result('Receive-path histories on both channels: bursts of host enqueues, paced service calls, status-gated and '
+    # fill level x command x refill scenarios (every fill level 0..5 incl. 3+1 and 3+1+overrun)
+    r = g.rnd
+    cmds = [[0x20], [0x20, 0x01], [0x21], [0x02], [0x02, 0x01], [0x40], [0x0a, 0x05], [0x30], [0x10], [0x01], [0x22]]
+    for ch in (0, 0x20):
+        q = 'qa' if ch == 0 else 'qb'
+        for fill in range(0, 7):
+            for nread in range(0, 5):
+                for cs in cmds:
+                    for more in (1, 2, 4):
+                        ops = ['wb:%x:1' % (0x20000b + ch)]
+                        t = 0
+                        for k in range(fill):
+                            ops.append('%s:%x' % (q, 0x31 + k))
+                        for k in range(fill):
+                            t += 1000000
+                            ops += ['t:%x' % t, 'sv']
+                        for k in range(nread):
+                            ops += ['rb:%x' % (0x200007 + ch), 'rb:%x' % (0x20000f + ch)]
+                        for c in cs:
+                            ops.append('wb:%x:%x' % (0x20000b + ch, c))
+                        ops.append('wb:%x:1' % (0x20000b + ch))
+                        for k in range(more):
+                            ops.append('%s:%x' % (q, 0x61 + k))
+                        for k in range(more + 1):
+                            t += 1000000
+                            ops += ['t:%x' % t, 'sv']
+                        for k in range(more + 2):
+                            ops += ['rb:%x' % (0x200007 + ch), 'rb:%x' % (0x20000f + ch), 'gi']
+                        ops.append('ds')
+                        g.add(ops, 'fill-cmd-refill')
+    return g.result('Receive-path histories on both channels: fill level (0-6 arrivals) x reads (0-4) x command sequence (reset/disable/enable/reset-error) x refill scenarios; bursts of host enqueues, paced service calls, status-gated and '
                     'ungated RHR reads, enable/disable/reset commands, all FIFO fill levels up to 3+1+overrun, plus all '
                     'histories of length 5 (quick) / 7 (thorough) over {enqueue 2 values, 1 ms step, gated read, reset rx, enable rx}.')
 
@@ -514,7 +544,17 @@ def gen_c17(tier, seed):
 
 PROPS['C08'] = {'gen': gen_c08, 'monitors': [monitors.mon_rx_path]}
 PROPS['C09'] = {'gen': gen_c09, 'monitors': [monitors.mon_tx_path]}
-PROPS['C14'] = {'gen': gen_c14, 'monitors': [monitors.mon_status_truth]}
+def gen_c14_plus(tier, seed):
+    a = gen_c14(tier, seed)
+    b = gen_c08(tier, seed + 7)
+    extra = [l for l in b['cases'] if l.split(' ', 1)[0].startswith('f')]
+    sel = [('h' + l) for l in extra if 'gi' in l][:6000]
+    a['cases'] = a['cases'] + sel
+    a['rule'] += ' Plus the fill-level x command x refill scenarios of the receive path (with interrupt polls).'
+    return a
+
+
+PROPS['C14'] = {'gen': gen_c14_plus, 'monitors': [monitors.mon_status_truth, monitors.mon_rx_path]}
 PROPS['C17'] = {'gen': gen_c17, 'monitors': [monitors.mon_pacing], 'assumptions': ['virtual clock only: std::time::Instant of the unguarded build is not modelled']}
 
 
